@@ -448,22 +448,23 @@ def opAttrSet (c : Ctx) (slat : Nat) (subindex : Nat) (value : Int) : Outcome :=
 
 /-- `Slot::getAttr(seg, slat, 0)` of the current slot for the positioning attributes this model carries (what `attr_add` reads);
 0 for a null `is` (the `setAttr` that follows is then reported as a fault) and for the attributes the model does not carry -/
+def slotAttr (sl : Slot) (slat : Nat) : Int :=
+  match slat with
+  | 0 => sl.advX
+  | 1 => sl.advY
+  | 2 => if sl.parent.isSome then 1 else 0
+  | 3 => sl.attX
+  | 4 => sl.attY
+  | 8 => sl.withX
+  | 9 => sl.withY
+  | 20 => sl.shiftX
+  | 21 => sl.shiftY
+  | _ => 0
+
 def curAttr (c : Ctx) (slat : Nat) : Int :=
   match c.is with
   | none => 0
-  | some i =>
-    let sl := c.seg.get i
-    match slat with
-    | 0 => sl.advX
-    | 1 => sl.advY
-    | 2 => if sl.parent.isSome then 1 else 0
-    | 3 => sl.attX
-    | 4 => sl.attY
-    | 8 => sl.withX
-    | 9 => sl.withY
-    | 20 => sl.shiftX
-    | 21 => sl.shiftY
-    | _ => 0
+  | some i => slotAttr (c.seg.get i) slat
 
 /-- `Silf::getClassGlyph(cid, index)` for linear classes -/
 def classGlyph (c : Ctx) (cid index : Nat) : Nat :=
@@ -521,9 +522,23 @@ def gcStep (acc : Ctx × Option Nat) (k : Nat) : Ctx × Option Nat :=
     else acc
   | none => acc
 
-/-- `SlotMap::collectGarbage(aSlot)` -/
-def collectGarbage (c : Ctx) (aSlot : Option Nat) : Ctx × Option Nat :=
+/-- the loop of `SlotMap::collectGarbage(aSlot)` -/
+def gcCells (c : Ctx) (aSlot : Option Nat) : Ctx × Option Nat :=
   -- `for (s = begin(); s != end() - 1; ++s)`: the last cell of the map is not visited
   (List.range (c.size - 1)).foldl gcStep (c, aSlot)
 
-end GrVerif.Seg
+/-- `if (aSlot && aSlot->isDeleted()) aSlot = aSlot->prev() ? aSlot->prev() : aSlot->next();` -/
+def offDeleted (r : Ctx × Option Nat) : Ctx × Option Nat :=
+  match r.2 with
+  | some d => if (r.1.seg.get d).deleted then (r.1, (r.1.seg.get d).prev.or (r.1.seg.get d).next) else r
+  | none => r
+
+/-- `SlotMap::collectGarbage(aSlot)` -/
+def collectGarbage (c : Ctx) (aSlot : Option Nat) : Ctx × Option Nat := offDeleted (gcCells c aSlot)
+
+theorem offDeleted_fst (r : Ctx × Option Nat) : (offDeleted r).1 = r.1 := by
+  unfold offDeleted; split
+  · split <;> rfl
+  · rfl
+
+theorem collectGarbage_fst (c : Ctx) (aSlot : Option Nat) : (collectGarbage c aSlot).1 = (gcCells c aSlot).1 := offDeleted_fst _
